@@ -213,3 +213,26 @@ def r4(ctx):
         ok = isinstance(v, ast.Attribute) and v.attr == f and isinstance(v.value, ast.Name) and v.value.id == master
         ctx.check(ok, fi, f"`{f}` is master_result.{f}", line=v.lineno if v is not None else ctor[0].node.lineno, role=f"copy:{f}",
                   expected=f"{f}={master}.{f}", found=unparse(v) if v is not None else "missing")
+
+
+def readers_do_not_write(ctx, entries):
+    from .own import describe, ext_writes, ownership
+    ana = ctx.ana
+    for q in entries:
+        fi = ana.func(q) if isinstance(q, str) else q
+        oa = ownership(ana, fi.qualname[len("fast_ticc."):])
+        bad = ext_writes(oa)
+        for m, objs in bad:
+            ctx.fail(fi, f"{short_name(fi)} may modify the model / data it only ought to read at {describe(m)}", role=f"reader-writes:{short_name(fi)}:{m.kind}",
+                     expected="metrics and result assembly are read-only", found=", ".join(sorted(map(str, objs)))[:140])
+        if not bad:
+            ctx.ok(fi, f"{short_name(fi)}: none of {len(oa.mutations)} reachable mutation sites writes the model or the data", role=f"reader-writes:{short_name(fi)}")
+
+
+def short_name(fi):
+    return fi.qualname.split("fast_ticc.")[-1]
+
+
+@rule("C06", "R5", "OWN", "metrics and per-point scoring read the final state without modifying it (all result fields describe one state)", floor=3)
+def r5(ctx):
+    readers_do_not_write(ctx, ["cluster_metrics.bayesian_information_criterion", "cluster_metrics.calinski_harabasz_index", per_cluster_helper(ctx.ana)])
